@@ -420,6 +420,14 @@ func (c *copier) copy(ctx context.Context, src, srcComponents, target string, ov
 			return errors.Wrap(err, "failed to get hardlink")
 		}
 		if link != "" {
+			// The earlier copy of this inode may have been replaced since (a later
+			// wildcard match can put a symlink at it or at one of its parents):
+			// never link through that, copy the content again instead.
+			if resolved, err := fs.RootPath(c.root, strings.TrimPrefix(link, c.root)); err != nil || resolved != link {
+				link = ""
+			}
+		}
+		if link != "" {
 			if err := os.Link(link, target); err != nil {
 				return errors.Wrap(err, "failed to create hard link")
 			}
